@@ -63,6 +63,20 @@ Definition capture_shape_ok : bool :=
 Definition chain_ok (k : ctor) : bool :=
   ctor_matched k && Z.eqb (Z.of_nat (List.length (chain_of k))) (ctor_skip k).
 
+(* firstn / skipn with a Z count, recursive on the LIST: a count like math.MaxInt (StackDepth, StackSkip take any
+   int) must not be turned into a unary number when a case is evaluated.  Equal to firstn/skipn of Z.to_nat
+   (Proofs/C05Proofs.zfirstn_eq, zskipn_eq). *)
+Fixpoint zfirstn {A : Type} (n : Z) (l : list A) : list A :=
+  match l with
+  | [] => []
+  | x :: r => if Z.ltb 0 n then x :: zfirstn (n - 1) r else []
+  end.
+Fixpoint zskipn {A : Type} (n : Z) (l : list A) : list A :=
+  match l with
+  | [] => []
+  | x :: r => if Z.ltb 0 n then zskipn (n - 1) r else l
+  end.
+
 (* ---------- runtime.Callers (oracle) ---------- *)
 Section Capture.
   Context {A : Type}.          (* program counters *)
@@ -71,14 +85,14 @@ Section Capture.
      entry 0 of [gs] is runtime.Callers itself; skip counts logical frames
      (inlined ones included); a non-positive skip skips nothing. *)
   Definition go_callers (skip depth : Z) (gs : list A) : list A :=
-    firstn (Z.to_nat depth) (skipn (Z.to_nat skip) gs).
+    zfirstn depth (zskipn skip gs).
 
   (* newError: depth := callersDepth; if d.stackDepth > 0 { depth = d.stackDepth } *)
   Definition eff_depth (d : defn) : Z := if Z.gtb (d_depth d) 0 then d_depth d else callersDepth.
 
   (* the brief's formula: capture d extra gs, gs = chain ++ user *)
   Definition capture (d : defn) (extra : Z) (gs : list A) : list A :=
-    firstn (Z.to_nat (eff_depth d)) (skipn (Z.to_nat (d_skip d + callersSkip + extra)) gs).
+    zfirstn (eff_depth d) (zskipn (d_skip d + callersSkip + extra) gs).
 
   (* newError(d, ..., stackSkip): None is the nil *stack of a NoTrace definition *)
   Definition new_error_stack (d : defn) (stack_skip : Z) (gs : list A) : option (list A) :=
